@@ -126,6 +126,8 @@ func init() {
 		RuleZone(r, p, c)
 		RuleInstants(r, p)
 		RuleK10c(r, c)
+		// every in-domain HH:mm decodes (24:00 included)
+		RuleK10Only(r, p, map[string]bool{"K10": true})
 	}
 
 	checks["C06"] = func(r *Report, p *Program, tier string) {
@@ -288,6 +290,8 @@ func init() {
 		RuleK15(r, c)
 		RuleK16(r, c)
 		RuleK17(r, c)
+		// decoding returns the encoded values: the HH:mm decoder accepts the whole domain of its encoder (24:00 included)
+		RuleK10Only(r, p, map[string]bool{"K10": true})
 	}
 }
 
